@@ -48,8 +48,8 @@ def drive(sc):
     par = sc["par"]
     tol = None if par["tolnone"] else (0.0 if par.get("tol") == "zero" else 0.1)
     plan = Plan(OptimizerContext(evaluator=lambda *_: None, plugin_manager=plugin_manager()))
-    tracked, other = uuid.uuid4(), uuid.uuid4()
-    tracker = plan.add_handler("tracker", what=par["what"], constraint_tolerance=tol, sources={tracked})
+    tracked, tracked2, other = uuid.uuid4(), uuid.uuid4(), uuid.uuid4()
+    tracker = plan.add_handler("tracker", what=par["what"], constraint_tolerance=tol, sources={tracked, tracked2})
     trace = []
     for ev in sc["events"]:
         items = [dict(it, feas_raw=it["feas"]) for it in ev["items"]]
@@ -58,7 +58,7 @@ def drive(sc):
         if par["flip"]:
             data["transformed_results"] = tuple(make_item(it, True, True) for it in items)
         plan.emit_event(Event(event_type=EventType.FINISHED_EVALUATION, config=config(),
-                              source=tracked if ev["src"] == "tracked" else other, data=data))
+                              source={"tracked": tracked, "tracked2": tracked2}.get(ev["src"], other), data=data))
         kept = plan.get(tracker, "results")
         eff = [{k: it[k] for k in ("id", "kind", "hasfun", "obj", "nan")} | {"feas": bool(it["feas"] or par["tolnone"])}
                for it in ev["items"]]
@@ -167,9 +167,9 @@ def extra_scenarios(tier, seed):
 def model_runs(tier):
     if tier == "quick":
         return [{"module": "MC_C12", "constants": {"L": 2, "Pairs": "TRUE"}},
-                {"module": "MC_C12", "constants": {"L": 4, "Pairs": "FALSE"}}]
+                {"module": "MC_C12", "constants": {"L": 3, "Pairs": "FALSE"}}]
     return [{"module": "MC_C12", "constants": {"L": 3, "Pairs": "TRUE"}, "heap": "12g"},
-            {"module": "MC_C12", "constants": {"L": 6, "Pairs": "FALSE"}, "heap": "12g"}]
+            {"module": "MC_C12", "constants": {"L": 5, "Pairs": "FALSE"}, "heap": "12g"}]
 
 
 CHECK = PropertyCheck(
